@@ -13,6 +13,7 @@ import (
 
 	"github.com/f1bonacc1/process-compose/src/admitter"
 	"github.com/f1bonacc1/process-compose/src/app"
+	"github.com/f1bonacc1/process-compose/src/health"
 	"github.com/f1bonacc1/process-compose/src/loader"
 	"github.com/f1bonacc1/process-compose/src/pclog"
 	"github.com/f1bonacc1/process-compose/src/types"
@@ -122,6 +123,12 @@ func (rc *runCtx) resolve(req *simos.SpawnReq) (string, *simos.Script) {
 		key = kind + ":" + tok
 	}
 	ts := rc.sc.Scripts[key]
+	if ts == nil {
+		// replicas share the script "<name>.*"
+		if i := strings.LastIndexByte(key, '.'); i > 0 {
+			ts = rc.sc.Scripts[key[:i]+".*"]
+		}
+	}
 	n := rc.launches[key]
 	rc.launches[key] = n + 1
 	if ts == nil || len(ts.Launches) == 0 {
@@ -133,7 +140,147 @@ func (rc *runCtx) resolve(req *simos.SpawnReq) (string, *simos.Script) {
 		n = len(ts.Launches) - 1
 	}
 	s := ts.Launches[n]
+	// "%T" in scripted output stands for the token of the command that writes it
+	for i := range s.Out {
+		if strings.Contains(s.Out[i].Data, "%T") {
+			out := make([]simos.OutChunk, len(s.Out))
+			copy(out, s.Out)
+			for j := range out {
+				out[j].Data = strings.ReplaceAll(out[j].Data, "%T", tok)
+			}
+			s.Out = out
+			break
+		}
+	}
 	return key, &s
+}
+
+// baseName strips the replica suffix of a name if what remains is a process of the scenario
+func baseName(sc *Scenario, name string) string {
+	if sc.Project == nil || sc.Project.Proc(name) != nil {
+		return name
+	}
+	if i := strings.LastIndexByte(name, '-'); i > 0 && i+1 < len(name) && strings.Trim(name[i+1:], "0123456789") == "" && sc.Project.Proc(name[:i]) != nil {
+		return name[:i]
+	}
+	return name
+}
+
+// InfoLite is what the oracles read of a process's configuration as the runner reports it
+type InfoLite struct {
+	Name        string   `json:"name"`
+	ReplicaName string   `json:"replica_name"`
+	ReplicaNum  int      `json:"replica_num"`
+	Replicas    int      `json:"replicas"`
+	Command     string   `json:"command"`
+	Executable  string   `json:"executable"`
+	Args        []string `json:"args"`
+	Env         []string `json:"env"`
+	WorkingDir  string   `json:"working_dir"`
+	Restart     string   `json:"restart"`
+	Disabled    bool     `json:"disabled"`
+	DependsOn   []string `json:"depends_on"`
+	Readiness   *ProbeLite `json:"readiness,omitempty"`
+	Liveness    *ProbeLite `json:"liveness,omitempty"`
+	Err         string   `json:"err,omitempty"`
+}
+
+// ProbeLite: the effective parameters of a probe as the runner reports them
+type ProbeLite struct {
+	InitialDelay, Period, Timeout, Success, Failure int
+	HTTP                                            bool
+	Host, Scheme, Path, Port                        string
+	NumPort                                         int
+}
+
+func probeLite(p *health.Probe) *ProbeLite {
+	if p == nil {
+		return nil
+	}
+	l := &ProbeLite{InitialDelay: p.InitialDelay, Period: p.PeriodSeconds, Timeout: p.TimeoutSeconds, Success: p.SuccessThreshold, Failure: p.FailureThreshold}
+	if p.HttpGet != nil {
+		l.HTTP, l.Host, l.Scheme, l.Path, l.Port, l.NumPort = true, p.HttpGet.Host, p.HttpGet.Scheme, p.HttpGet.Path, p.HttpGet.Port, p.HttpGet.NumPort
+	}
+	return l
+}
+
+// Audit is a consistent picture of the runner taken by one client task in one go
+type Audit struct {
+	Names      []string            `json:"names"`
+	NamesErr   string              `json:"names_err,omitempty"`
+	States     []StateLite         `json:"states"`
+	StatesErr  string              `json:"states_err,omitempty"`
+	Infos      map[string]InfoLite `json:"infos"`
+	Logs       map[string][]string `json:"logs"`
+	LogErrs    map[string]string   `json:"log_errs"`
+	Gone       map[string]string   `json:"gone"` // name -> "" if GetProcessState still answers, else its error
+	FreshNames []string            `json:"fresh_names,omitempty"`
+	FreshErr   string              `json:"fresh_err,omitempty"`
+}
+
+func infoLite(c *types.ProcessConfig) InfoLite {
+	il := InfoLite{Name: c.Name, ReplicaName: c.ReplicaName, ReplicaNum: c.ReplicaNum, Replicas: c.Replicas, Command: c.Command,
+		Executable: c.Executable, Args: append([]string{}, c.Args...), Env: append([]string{}, c.Environment...), WorkingDir: c.WorkingDir,
+		Restart: c.RestartPolicy.Restart, Disabled: c.Disabled}
+	il.Readiness, il.Liveness = probeLite(c.ReadinessProbe), probeLite(c.LivenessProbe)
+	for d := range c.DependsOn {
+		il.DependsOn = append(il.DependsOn, d)
+	}
+	sort.Strings(il.DependsOn)
+	return il
+}
+
+// audit: names, states, and per listed name its configuration and log; op.Args are names
+// expected not to exist anymore; with op.Arg = "<process>" and op.N = n the scenario's
+// project is loaded afresh with replicas: n for that process and its names are reported
+func (rc *runCtx) audit(op *Op) *Audit {
+	p := rc.proj
+	a := &Audit{Infos: map[string]InfoLite{}, Logs: map[string][]string{}, LogErrs: map[string]string{}, Gone: map[string]string{}}
+	names, err := p.GetLexicographicProcessNames()
+	a.Names, a.NamesErr = names, errStr(err)
+	a.States, err = snapStates(p)
+	a.StatesErr = errStr(err)
+	for _, n := range names {
+		c, err := p.GetProcessInfo(n)
+		if err != nil {
+			a.Infos[n] = InfoLite{Err: err.Error()}
+		} else {
+			a.Infos[n] = infoLite(c)
+		}
+		lines, err := p.GetProcessLog(n, 1000, 0)
+		if err != nil {
+			a.LogErrs[n] = err.Error()
+		} else {
+			a.Logs[n] = lines
+		}
+	}
+	for _, n := range op.Args {
+		_, err := p.GetProcessState(n)
+		a.Gone[n] = errStr(err)
+	}
+	if op.Arg != "" && op.N > 0 {
+		spec := *rc.sc.Project
+		spec.Procs = nil
+		for _, q := range rc.sc.Project.Procs {
+			c := *q
+			if c.Name == op.Arg {
+				c.Replicas = op.N
+			}
+			spec.Procs = append(spec.Procs, &c)
+		}
+		prj, err := loadProject(rc.sc, &spec, rc.tmp, "pc-fresh.yaml")
+		if err != nil {
+			a.FreshErr = err.Error()
+		} else {
+			for n, c := range prj.Processes {
+				if c.Name == op.Arg {
+					a.FreshNames = append(a.FreshNames, n)
+				}
+			}
+			sort.Strings(a.FreshNames)
+		}
+	}
+	return a
 }
 
 func errStr(err error) string {
@@ -435,7 +582,7 @@ func (rc *runCtx) runClient(c *Client) {
 			simsync.Yield(simsync.SiteHarness)
 		}
 		desc := op.Op + "(" + op.Arg
-		if op.Op == "scale" || op.Op == "log" || op.Op == "update" {
+		if op.Op == "scale" || op.Op == "log" || op.Op == "update" || op.Op == "audit" {
 			desc += fmt.Sprintf(",%d", op.N)
 		}
 		if len(op.Args) > 0 {
@@ -460,7 +607,11 @@ func (rc *runCtx) doOp(op *Op) (any, error) {
 	case "stopmany":
 		return p.StopProcesses(op.Args)
 	case "scale":
-		return nil, p.ScaleProcess(op.Arg, op.N)
+		err := p.ScaleProcess(op.Arg, op.N)
+		if err == nil {
+			simlog.Add(simlog.Event{Kind: "api.scaled", Subj: baseName(rc.sc, op.Arg), N: op.N})
+		}
+		return nil, err
 	case "shutdown":
 		return nil, p.ShutDownProject()
 	case "state":
@@ -471,6 +622,8 @@ func (rc *runCtx) doOp(op *Op) (any, error) {
 		return lite(s), nil
 	case "states":
 		return snapStates(p)
+	case "audit":
+		return rc.audit(op), nil
 	case "info":
 		return p.GetProcessInfo(op.Arg)
 	case "log":
